@@ -274,6 +274,13 @@ pub fn run(opts: &Opts) -> i32 {
     if let Some(c) = char::from_u32(cp) {
       test(&mut out, vec![c.to_string()], "single_scalar_values");
       out.nontrivial(hash64(&(cp, 0u8)));
+      // ... and next to a character that is written as a numeric escape, on either side (what follows or precedes
+      // an escape sequence must not be read as part of it)
+      if !aux || cp % 7 == 0 {
+        test(&mut out, vec![format!("*{}", c)], "scalar_next_to_an_escape");
+        test(&mut out, vec![format!("{}?", c)], "scalar_next_to_an_escape");
+        test(&mut out, vec![format!("\u{7}{}\u{7f}", c)], "scalar_next_to_an_escape");
+      }
     }
     cp += opts.nshards as u32;
   }
